@@ -42,7 +42,7 @@ def accrual_fn(ctx):
     return ctx.prog.fns[ks[0]]
 
 
-def run(ctx):
+def _run(ctx):
     prog = ctx.prog
     acc = accrual_fn(ctx)
     if acc is None:
@@ -310,3 +310,12 @@ def run(ctx):
         for fld, src in [("program_fee_fixed", "program_fee_fixed"), ("program_fee_rate", "program_fee_rate")]:
             for bi, pv in agg_fields(ctx, mk, "state::interest_rate::InterestRateCalc", fld):
                 wiring(ctx, "C06.R4", "calc/" + fld, pv, must=[("field", "FeeStateCache", src)], loc=mk.bloc(bi), what=fld)
+
+
+def run(ctx):
+    from .kernels import check_kernels
+    try:
+        _run(ctx)
+    finally:
+        # numeric kernels this property's formulas rest on, pinned as canonical expression trees
+        check_kernels(ctx, "C06.K", ['accrued-per-period', 'payment-for-period'])
